@@ -789,6 +789,11 @@ pub mod metrics {
     pub fn collect(ctx: &Ctx) -> String {
         crate::metrics::verif_hooks::collect(&ctx.0.metrics)
     }
+
+    /// The metrics listener's handling of one accepted connection (`metrics::handle_request`)
+    pub async fn serve_connection(ctx: &Ctx, stream: tokio::net::TcpStream) {
+        crate::metrics::verif_hooks::serve_connection(ctx.0.clone(), stream).await
+    }
 }
 
 /// The real UDP multiplexer (udp_pipe::DuplexPipe + udp_forwarder::make_multiplexer) between a
